@@ -16,8 +16,12 @@ CHECKS = {
              "/ identity / augmented_matrix is executed on exact-real "
              "symbolic matrices (n<=3 quick, n<=4 thorough) and z3 decides "
              "'rc=0 and det!=0 => A.x=b' and 'rc!=0 => singular' per path; "
-             "counter-examples are replayed on the real function. Bounded "
-             "(sizes, exact arithmetic), not a proof.",
+             "counter-examples are replayed on the real function. The "
+             "Householder stage tred2 of the 3x3 eigen-decomposition "
+             "(linalg3.pyx, lowered) is checked for symmetric matrices with "
+             "at least one zero off-diagonal entry: Q orthogonal and Q^T A Q "
+             "= tridiag(d, e). Bounded (sizes, exact arithmetic), not a "
+             "proof.",
         note="python floats modelled as reals (rounding outside the claim); "
              "abs/float shadowed in the module globals; z3 5.1 trusted; "
              "paths whose query times out are reported INCONCLUSIVE in "
